@@ -882,16 +882,16 @@ func init() {
 			return v, tb.Or(dig, tb.Or(lo, up))
 		}
 		out := []Value{}
+		allValid := tb.True
 		for i := 0; i+1 < len(cs); i += 2 {
 			h, hv := nib(cs[i].(*Term))
 			l, lv := nib(cs[i+1].(*Term))
-			if !in.decide(fr, nil, hv) {
-				return Tuple{Slice{A: out}, in.newError(Str{S: "encoding/hex: invalid byte"}, nil)}
-			}
-			if !in.decide(fr, nil, lv) {
-				return Tuple{Slice{A: out}, in.newError(Str{S: "encoding/hex: invalid byte"}, nil)}
-			}
+			allValid = tb.And(allValid, tb.And(hv, lv))
 			out = append(out, tb.Bin(OBor, tb.Bin(OShl, h, tb.BVConst(8, 4)), l))
+		}
+		// one query for "every character is a hex digit" (the position of the first bad one is not modelled)
+		if !in.decide(fr, nil, allValid) {
+			return Tuple{Slice{A: []Value{}}, in.newError(Str{S: "encoding/hex: invalid byte"}, nil)}
 		}
 		if len(cs)%2 == 1 {
 			// the real function reports InvalidByteError for a bad last char, else ErrLength
